@@ -325,6 +325,22 @@ func BuildAfterDelete(set []RouteSpec, method, extra string, first bool, prof Pr
 	return e, nil
 }
 
+// BuildAfterAbort registers set, then registers extra inside a write transaction that is aborted: the
+// registered set is set, and nothing of the aborted transaction may show.
+func BuildAfterAbort(set []RouteSpec, method, extra string, prof Profile) (*Env, error) {
+	e, err := Build(set, prof)
+	if err != nil {
+		return nil, err
+	}
+	txn := e.F.Txn(true)
+	_, herr := txn.Handle(method, extra, e.Handler(len(set)))
+	txn.Abort()
+	if herr != nil {
+		return nil, herr
+	}
+	return e, nil
+}
+
 // BuildRef (re)builds the reference matchers from e.Set.
 func (e *Env) BuildRef() {
 	e.probe = nil
